@@ -3,6 +3,7 @@ package report
 import (
 	"bufio"
 	"fmt"
+	"sort"
 
 	"github.com/aquilax/hranoprovod-cli/cmd/hranoprovod-cli/v3/internal/reporter"
 	shared "github.com/aquilax/hranoprovod-cli/v3"
@@ -37,7 +38,12 @@ func (r *UnsolvedReporter) Process(ln *shared.LogNode) error {
 
 // Flush flushes the report
 func (r *UnsolvedReporter) Flush() error {
+	names := make([]string, 0, len(r.list))
 	for name := range r.list {
+		names = append(names, name)
+	}
+	sort.Strings(names)
+	for _, name := range names {
 		fmt.Fprintln(r.output, name)
 	}
 	return r.output.Flush()
